@@ -304,7 +304,7 @@ Qed.
 
 (* out-of-range integers are errors: a parsed integer always fits its width *)
 Lemma parse_text_int_in_range w name s v :
-  parse_text (TBasic (KInt w) name) s = Ok v -> predeclared name = true ->
+  parse_text (TBasic (KInt w) name) s = Ok v -> str_eqb name duration_name = false ->
   exists z, v = VInt z /\ in_int_range w z = true.
 Proof.
   simpl. intros H Hn. rewrite Hn in H.
@@ -313,7 +313,7 @@ Proof.
 Qed.
 
 Lemma parse_text_uint_in_range w name s v :
-  parse_text (TBasic (KUint w) name) s = Ok v -> predeclared name = true ->
+  parse_text (TBasic (KUint w) name) s = Ok v -> str_eqb name duration_name = false ->
   exists n, v = VInt (Z.of_N n) /\ in_uint_range w n = true.
 Proof.
   simpl. intros H Hn. rewrite Hn in H. destruct (N.eqb w 1); [discriminate|].
